@@ -92,6 +92,13 @@ def world_seed(base_seed, i):
 def _batch(args):
     pid, seeds, tier = args
     faulthandler.dump_traceback_later(1500, exit=True)
+    try:  # a defective allocation (huge sample arrays) must not take the machine down: MemoryError inside the world
+        import resource
+
+        lim = int(os.environ.get("VERIF_WORKER_MEM_GB", "6")) * (1 << 30)
+        resource.setrlimit(resource.RLIMIT_AS, (lim, lim))
+    except Exception:
+        pass
     mod = load_prop_bootstrapped(pid)
     outs = []
     for s in seeds:
@@ -296,8 +303,14 @@ def run_check(pid, tier, base_seed, n_worlds=None, workers=None, wall_budget=Non
     for sig in known_hit:
         lines.append(f"KNOWN-FINDING: property={pid} {sig}  [{len(by_sig[sig])} world(s) this run]")
     replays = []
+    screen = bool(os.environ.get("VERIF_SCREEN"))  # development-time screening of mutants: verdict only
     for sig in new_sigs:
         o, v = by_sig[sig][0]
+        if screen:
+            lines.append(f"VIOLATION property={pid} replay=(screening run: not written)")
+            lines.append(f"  signature: {sig}")
+            exit_code = 1
+            continue
         sc, tr = o["scenario"], [t[2] for t in o["trace"]]
         try:
             budget = 0 if os.environ.get("VERIF_NO_MINIMISE") else cfg.get("shrink_budget", 80)
